@@ -57,6 +57,7 @@ def dims(tier):
 		index=['list:2,0,2', 'none'] + [f'{k}:{",".join(map(str, t))}' for k, t in index_lists(n, 3 if tier == 'quick' else 2)[1:] if (k, t) != ('list', [2, 0, 2])],
 		out=['none', 'exact', 'strided'],
 		threads=[2, 1, 3, 16],
+		qdtype=['same', 'u2', 'u4', 'u8', 'i8', 'wide-values'],
 	)
 
 
@@ -148,7 +149,14 @@ def run_config(sh, fx, v):
 		return
 	refs = fx.get(coll, v['container'], dtype)
 	sel = list(range(n)) if ivals is None else ivals
-	queries = [np.array(q, dtype=dtype) for q in QUERIES]
+	# queries may be stored in another integer type than the references; 'wide-values': a 64-bit query holding indices above the
+	# range of a narrower reference type (which must simply not match anything)
+	if v['qdtype'] == 'same':
+		queries = [np.array(q, dtype=dtype) for q in QUERIES]
+	elif v['qdtype'] == 'wide-values':
+		queries = [np.array(q + [65536 + 3, 2 ** 32 + 3, 2 ** 63 + 3], dtype='u8') for q in QUERIES]
+	else:
+		queries = [np.array(q, dtype=v['qdtype']) for q in QUERIES]
 	omp_set_num_threads(v['threads'])
 	case = dict(v)
 	try:
